@@ -6,3 +6,5 @@ export GOFLAGS=-mod=vendor GOPROXY=off GOSUMDB=off GOTOOLCHAIN=local
 unset GOWORK
 mkdir -p ../bin ../evidence ../replays
 go build -o ../bin/slugcheck .
+# the mutation-sweep instrument (tools/mutsweep.py); not needed by any check
+(cd ../tools/mutgen && GOFLAGS=-mod=mod go build -o ../../bin/mutgen . 2>/dev/null) || true
